@@ -29,12 +29,12 @@ marks nothing, the markers in the store are exactly the live ids, and every rele
 hand-out the same caller has not released yet (never a second release).  Node-id allocation (claim by
 `SetNX`, renewal by `Set` in the tier of the claim, `Release`) is the instance `kind = 9`. -/
 theorem C15_main (ttl maxAtt : Nat → Nat) (pre : Store) (progs : List (Nat × List Op)) (σ : List Sch) :
-    holds ttl pre (run ⟨true, ttl, maxAtt, true⟩ (init pre progs) σ).trace
-      (liveKeys (run ⟨true, ttl, maxAtt, true⟩ (init pre progs) σ).store
-                (run ⟨true, ttl, maxAtt, true⟩ (init pre progs) σ).now) = true :=
-  holds_of_inv ⟨true, ttl, maxAtt, true⟩ pre _
-    (inv_run_cas ⟨true, ttl, maxAtt, true⟩ pre σ (init pre progs) rfl rfl rfl)
-    (invH_run _ σ _ (invH_init pre progs))
+    holds ttl pre (run ⟨true, ttl, maxAtt, true, true⟩ (init pre progs) σ).trace
+      (liveKeys (run ⟨true, ttl, maxAtt, true, true⟩ (init pre progs) σ).store
+                (run ⟨true, ttl, maxAtt, true, true⟩ (init pre progs) σ).now) = true :=
+  holds_of_inv ⟨true, ttl, maxAtt, true, true⟩ pre _
+    (inv_run_cas ⟨true, ttl, maxAtt, true, true⟩ pre σ (init pre progs) rfl rfl rfl)
+    (invH_run _ σ _ rfl (invH_init pre progs))
 
 /-! ## What `holds` means: no id is handed out twice while live -/
 
@@ -105,6 +105,75 @@ theorem C15_fault_never_hands_out_taken (P : Params) (c : Cfg) (tid : Nat) :
     | exact ⟨by simp [failCfg], _, rfl, failEvs_no_ok P _ _ _⟩
     | exact ⟨rfl, _, rfl, by simp⟩
 
+/-! ## Lease clause: a claim whose holder keeps running is renewed and never lapses -/
+
+/-- **Unique while renewed.** If an observed history is accepted by `holds`, an id handed out to
+`t₁` cannot be handed out again (to anybody) as long as nobody released it and its lease was kept up:
+starting from a full `ttl`, no stretch of clock ticks between consecutive renewals (`rnw`, what the
+holder's 30 s heartbeat does) uses up the lease (`leaseOk`).  With `C15_no_dead_of_holds` — every
+heartbeat tick of a holder does renew — a node that keeps running keeps its id for good. -/
+theorem C15_unique_while_renewed (ttl : Nat → Nat) (pre : Store) (view : List Key)
+    (before mid after : List Ev) (t₁ t₂ kind id : Nat)
+    (hq : mid.all (quiet (kind, id)) = true)
+    (hlease : leaseOk (kind, id) (ttl kind) (ttl kind) mid = true) (hpos : 0 < ttl kind)
+    (h : holds ttl pre (before ++ [.ok t₁ kind id] ++ mid ++ [.ok t₂ kind id] ++ after) view = true) :
+    False := by
+  unfold holds at h
+  rw [Bool.and_eq_true, Bool.and_eq_true] at h
+  have hg := h.1.1
+  unfold replay at hg
+  simp only [List.foldl_append, List.foldl_cons, List.foldl_nil] at hg
+  have hg2 := good_mono ttl _ after hg
+  generalize hs : List.foldl (specStep ttl) ⟨pre, 0, true⟩ before = s at hg2
+  have hl := lease_live ttl (kind, id) mid (specStep ttl s (.ok t₁ kind id)) (ttl kind) hq hlease
+    (Nat.le_refl _) hpos
+    ⟨expiry s.now (ttl kind), by simp [specStep, lookup_put_self], by
+      right; unfold expiry; simp only [specStep]
+      have : ttl kind ≠ 0 := by omega
+      simp [this]⟩
+  generalize hm : List.foldl (specStep ttl) (specStep ttl s (.ok t₁ kind id)) mid = m at hg2 hl
+  have hg3 : (m.good && !live m.store m.now (kind, id)) = true := hg2
+  rw [Bool.and_eq_true] at hg3
+  rw [hl] at hg3
+  exact Bool.noConfusion hg3.2
+
+/-- **A running holder's heartbeat is alive.** An accepted history contains no heartbeat tick that
+found the heartbeat gone. -/
+theorem C15_no_dead_of_holds (ttl : Nat → Nat) (pre : Store) (view : List Key)
+    (p q : List Ev) (t kind id : Nat) (h : holds ttl pre (p ++ [.dead t kind id] ++ q) view = true) :
+    False := by
+  unfold holds at h
+  rw [Bool.and_eq_true] at h
+  have hg : ((p ++ [Ev.dead t kind id] ++ q).foldl heldStep ([], true)).2 = true := h.2
+  rw [List.foldl_append, List.foldl_append] at hg
+  have := held_good_mono q _ hg
+  simp [heldStep] at this
+
+/-- **Heartbeat cancelled when the allocation returns (seeded defect).** With a heartbeat that does
+not outlive `AllocateNodeID` the holder's ticks renew nothing, the claim lapses after the lease while
+node 0 is running, and node 1 is given node 0's id. -/
+theorem C15_heartbeat_cancelled_witness :
+    holds (fun _ => 90000) []
+      (run ⟨true, fun _ => 90000, fun _ => 1000, true, false⟩
+        (init [] [(0, [.gen 9 (fun a => 1 + a), .renewOwn, .renewOwn, .renewOwn]), (1, [.gen 9 (fun a => 1 + a)])])
+        [.step 0, .tick 30000, .step 0, .tick 30000, .step 0, .tick 30000, .step 0, .step 1]).trace
+      [(9, 1)] = false := by decide
+
+/-- The same schedule with the heartbeat alive: three renewals, node 1 moves on to slot 2; and the
+lease hypothesis of `C15_unique_while_renewed` is met by exactly this renewal rhythm. -/
+example :
+    (run ⟨true, fun _ => 90000, fun _ => 1000, true, true⟩
+        (init [] [(0, [.gen 9 (fun a => 1 + a), .renewOwn, .renewOwn, .renewOwn]), (1, [.gen 9 (fun a => 1 + a)])])
+        [.step 0, .tick 30000, .step 0, .tick 30000, .step 0, .tick 30000, .step 0, .step 1, .step 1]).trace
+      = [.ok 0 9 1, .tick 30000, .rnw 0 9 1, .tick 30000, .rnw 0 9 1, .tick 30000, .rnw 0 9 1, .ok 1 9 2] := by
+  decide
+example : leaseOk (9, 1) 90000 90000
+    [.tick 30000, .rnw 0 9 1, .tick 30000, .rnw 0 9 1, .tick 30000, .rnw 0 9 1, .tick 89999] = true := by decide
+example : leaseOk (9, 1) 90000 90000 [.tick 30000, .tick 30000, .tick 30000] = false := by decide
+example : holds (fun _ => 90000) []
+    [.ok 0 9 1, .tick 30000, .dead 0 9 1, .tick 30000, .dead 0 9 1, .tick 30000, .dead 0 9 1, .ok 1 9 1] [(9, 1)] = false := by
+  decide
+
 /-! ## Release clause: a hand-out is released by its holder at most once -/
 
 /-- **Release-own at most once, read off the predicate.** In every prefix `p` of a history accepted by
@@ -127,7 +196,7 @@ theorem C15_release_own_at_most_once (ttl : Nat → Nat) (pre : Store) (view : L
 /-- The model never releases twice: after its release-own a thread believes it owns nothing, and a
 further release-own is a no-op without a storage call (`if a.nodeID == "" { return nil }`). -/
 example :
-    (run ⟨true, fun _ => 90000, fun _ => 1000, true⟩
+    (run ⟨true, fun _ => 90000, fun _ => 1000, true, true⟩
         (init [] [(0, [.gen 9 (fun a => 1 + a), .relOwn, .relOwn]), (1, [.gen 9 (fun a => 1 + a)]),
                   (2, [.gen 9 (fun a => 1 + a)])])
         [.step 0, .step 0, .step 1, .step 0, .step 2, .step 2]).trace
@@ -146,11 +215,11 @@ exists-then-set under the instance mutex gives the same guarantee for any number
 callers of *one* generator instance `I`, under any interleaving with releases and clock ticks. -/
 theorem C15_fallback_single (ttl maxAtt : Nat → Nat) (pre : Store) (I : Nat) (progs : List (List Op))
     (hnr : ∀ p ∈ progs, Op.renewOwn ∉ p) (σ : List Sch) :
-    holds ttl pre (run ⟨false, ttl, maxAtt, true⟩ (init pre (progs.map (fun p => (I, p)))) σ).trace
-      (liveKeys (run ⟨false, ttl, maxAtt, true⟩ (init pre (progs.map (fun p => (I, p)))) σ).store
-                (run ⟨false, ttl, maxAtt, true⟩ (init pre (progs.map (fun p => (I, p)))) σ).now) = true := by
-  apply holds_of_inv ⟨false, ttl, maxAtt, true⟩ pre _ ?_ (invH_run _ σ _ (invH_init pre _))
-  apply (invF_run ⟨false, ttl, maxAtt, true⟩ pre I σ _ rfl _).inv
+    holds ttl pre (run ⟨false, ttl, maxAtt, true, true⟩ (init pre (progs.map (fun p => (I, p)))) σ).trace
+      (liveKeys (run ⟨false, ttl, maxAtt, true, true⟩ (init pre (progs.map (fun p => (I, p)))) σ).store
+                (run ⟨false, ttl, maxAtt, true, true⟩ (init pre (progs.map (fun p => (I, p)))) σ).now) = true := by
+  apply holds_of_inv ⟨false, ttl, maxAtt, true, true⟩ pre _ ?_ (invH_run _ σ _ rfl (invH_init pre _))
+  apply (invF_run ⟨false, ttl, maxAtt, true, true⟩ pre I σ _ rfl _).inv
   refine ⟨rfl, ?_, ?_, ?_, ?_⟩
   · intro i
     simp only [init, mkThreads]
@@ -187,7 +256,7 @@ generator instances (two nodes) on a store without `SetNX` each hold only their 
 check, both set, both return the same id. -/
 theorem C15_fallback_two_instances_witness :
     holds (fun _ => 1000) []
-      (run ⟨false, fun _ => 1000, fun _ => 100, true⟩
+      (run ⟨false, fun _ => 1000, fun _ => 100, true, true⟩
         (init [] [(0, [.gen 2 (fun _ => 1)]), (1, [.gen 2 (fun _ => 1)])])
         [.step 0, .step 1, .step 0, .step 1]).trace
       [(2, 1)] = false := by decide
@@ -197,14 +266,14 @@ the shared tier; the heartbeat wrote the node-local tier, i.e. nothing the other
 0 claims slot 1 and renews every 30 s; after 90 s node 1 is given slot 1 as well. -/
 theorem C15_node_renew_asFound_witness :
     holds (fun _ => 90000) []
-      (run ⟨true, fun _ => 90000, fun _ => 1000, false⟩
+      (run ⟨true, fun _ => 90000, fun _ => 1000, false, true⟩
         (init [] [(0, [.gen 9 (fun a => 1 + a), .renewOwn, .renewOwn, .renewOwn]), (1, [.gen 9 (fun a => 1 + a)])])
         [.step 0, .tick 30000, .step 0, .tick 30000, .step 0, .tick 30000, .step 0, .step 1]).trace
       [(9, 1)] = false := by decide
 
 /-- The same history on the repaired code is accepted: node 1 gets slot 2. -/
 example :
-    (run ⟨true, fun _ => 90000, fun _ => 1000, true⟩
+    (run ⟨true, fun _ => 90000, fun _ => 1000, true, true⟩
         (init [] [(0, [.gen 9 (fun a => 1 + a), .renewOwn, .renewOwn, .renewOwn]), (1, [.gen 9 (fun a => 1 + a)])])
         [.step 0, .tick 30000, .step 0, .tick 30000, .step 0, .tick 30000, .step 0, .step 1, .step 1]).trace
       = [.ok 0 9 1, .tick 30000, .rnw 0 9 1, .tick 30000, .rnw 0 9 1, .tick 30000, .rnw 0 9 1, .ok 1 9 2] := by
@@ -253,7 +322,7 @@ theorem skel_HybridSetNX :
 /-- Three callers on two instances contend for a candidate space of three ids with one id
 pre-existing; the third caller is exhausted after `maxAtt = 2` attempts. -/
 example :
-    (run ⟨true, fun _ => 1000, fun _ => 2, true⟩
+    (run ⟨true, fun _ => 1000, fun _ => 2, true, true⟩
         (init [((0, 10), 0)] [(0, [.gen 0 (fun a => 10 + a)]), (1, [.gen 0 (fun a => 10 + a)]), (1, [.gen 0 (fun _ => 10)])])
         [.step 0, .step 1, .step 2, .step 0, .step 1, .step 2]).trace
       = [.ok 0 0 11, .exh 1 0, .exh 2 0] := by decide
@@ -273,7 +342,7 @@ instants; an entry whose instant has passed is still in the list).  Slot 1 holds
 crashed node (expiry 1, clock at 3): of two nodes racing for it exactly one gets it, the other moves
 on to slot 2 — and `holds` rejects an observation in which both are given slot 1. -/
 example :
-    (run ⟨true, fun _ => 90000, fun _ => 1000, true⟩
+    (run ⟨true, fun _ => 90000, fun _ => 1000, true, true⟩
         (init [((9, 1), 1)] [(0, [.gen 9 (fun a => 1 + a)]), (1, [.gen 9 (fun a => 1 + a)])])
         [.tick 3, .step 0, .step 1, .step 1]).trace
       = [.tick 3, .ok 0 9 1, .ok 1 9 2] := by decide
